@@ -16,7 +16,7 @@
 import AgeModel.GoSem
 import AgeModel.Format
 import AgeModel.Extracted.Funcs
-import Proofs.GoTieFormat
+import Proofs.GoTieLines
 namespace AgeModel
 namespace GoTie
 open Extracted
